@@ -117,6 +117,7 @@ def compare(prop: str, jobs: list[dict], extra_defs: str = "", extra_evals=None,
         rows.append(f"({r['hpre']}%N, {r['ast']}, {pyterm})")
         ids.append(r["id"])
     files = {}
+    shard = max(20, min(shard, -(-len(rows) // common.NPROC)))
     for k in range(0, len(rows), shard):
         chunk = rows[k : k + shard]
         files[f"k2_{k // shard:04d}"] = (
